@@ -23,6 +23,9 @@ func (fgen *funcGen) newTerm(old ast.Terminator) (ir.Terminator, error) {
 		if err != nil {
 			return nil, err
 		}
+		if v, ok := term.(value.Value); ok && types.IsVoid(v.Type()) && old.Name().Text() != `%""` {
+			return nil, errors.Errorf("terminator returning void cannot have a name; got %q", old.Name().Text())
+		}
 		fgen.recordExplicitID(ident, old.Name().Text(), term)
 		return term, nil
 	case ast.ValueTerminator:
